@@ -194,6 +194,8 @@ type Exec struct {
 	TraceOn     bool
 	objCount    uint64
 	panicVal    string
+	spawnCount  int
+	exitedKey   uint64 // state-key contribution of goroutines that have exited (removed from gs)
 	CollectKeys bool
 	invariant   func() string // evaluated by the scheduler in every quiescent state
 	TimeJumps   bool // offer 'a pending timer fires although goroutines are runnable' as an alternative
@@ -333,14 +335,15 @@ func Go(pos string, fn func()) {
 
 func (e *Exec) spawn(parent *G, pos string, fn func()) *G {
 	e.mu.Lock()
-	g := &G{id: len(e.gs), exec: e, wake: make(chan int), name: pos}
+	e.spawnCount++
+	g := &G{id: e.spawnCount, exec: e, wake: make(chan int), name: pos}
 	if parent != nil {
 		parent.spawned++
 		g.path = fmt.Sprintf("%s.%d", parent.path, parent.spawned)
 		g.hash = mix(parent.hash, hstr(pos))
 		parent.hash = mix(parent.hash, hstr(pos)+1)
 	} else {
-		g.path = fmt.Sprintf("r%d", len(e.gs))
+		g.path = fmt.Sprintf("r%d", e.spawnCount-1)
 		g.hash = hstr(pos)
 	}
 	g.pathH = hstr(g.path)
@@ -480,7 +483,7 @@ const (
 func (e *Exec) stateKey() uint64 {
 	// order-independent combination (sum) of per-goroutine contributions: the key of a
 	// state is the multiset of (identity, history hash, control point) plus clock and timers
-	h := mix(uint64(e.now)+0x1234567, 0x51)
+	h := mix(uint64(e.now)+0x1234567, 0x51) + e.exitedKey
 	for _, g := range e.gs {
 		v := g.hash ^ uint64(g.state)<<60
 		if g.inOp {
@@ -620,6 +623,22 @@ func (e *Exec) loop() {
 			e.verdict = Verdict{Kind: "panic", Detail: e.panicVal}
 			e.mu.Unlock()
 			return
+		}
+		// goroutines that have exited leave the scan list; their contribution to the state
+		// key is kept in exitedKey
+		if n := len(e.gs); n > 0 {
+			live := e.gs[:0]
+			for _, g := range e.gs {
+				if g.state == gExited {
+					e.exitedKey += mix(g.pathH, g.hash^uint64(gExited)<<60)
+					continue
+				}
+				live = append(live, g)
+			}
+			for i := len(live); i < n; i++ {
+				e.gs[i] = nil
+			}
+			e.gs = live
 		}
 		for _, g := range e.gs {
 			switch {
